@@ -37,9 +37,10 @@ func res(f func() string) (out string) {
 
 var cfg = &go2coq.Config{
 	Prefix: "s_",
-	Funcs:  []string{"CountAB", "Runs", "FindPair", "Swap", "MkP", "Upto", "At", "Safe", "Sum", "Shadow", "Upper", "Mixed"},
-	Stubs:  map[string]string{"bytes": "package bytes\nfunc IndexByte(b []byte, c byte) int\n"},
-	Lib:    map[string]go2coq.LibFunc{"bytes.IndexByte": {Coq: "go_bytes_IndexByte"}},
+	Funcs: []string{"CountAB", "Runs", "FindPair", "Swap", "MkP", "Upto", "At", "Safe", "Sum", "Shadow", "Upper", "Mixed",
+		"Lookup", "Balanced", "Tri", "SumTri", "Runes", "Plain", "Words", "AllHex", "CountDown"},
+	Stubs: map[string]string{"bytes": "package bytes\nfunc IndexByte(b []byte, c byte) int\n"},
+	Lib:   map[string]go2coq.LibFunc{"bytes.IndexByte": {Coq: "go_bytes_IndexByte"}},
 	Structs: map[string]go2coq.Struct{"verif/harness/go2coq/internal/synth.P": {CoqType: "(bytes * Z)%type", Ctor: "pair",
 		Fields: []go2coq.Field{{Go: "Name", Getter: "fst"}, {Go: "N", Getter: "snd"}}}},
 }
@@ -84,13 +85,57 @@ func TestAgainstGo(t *testing.T) {
 		add("s_Shadow "+cd, res(func() string { return coqZ(synth.Shadow(d)) }))
 		add("s_Upper 50 "+cd, res(func() string { return coqBytes(synth.Upper(d)) }))
 	}
+	// maps, recursion, range over strings / ints, slices of strings
+	mGo := map[string]bool{"a": true, "x": true, "b": false, "bc": true}
+	mCoq := "(fun k => bytes_eqb k [x61] || bytes_eqb k [x78] || bytes_eqb k [x62; x63])"
+	nGo := map[string]int{"a": 3, "ab": 1}
+	nCoq := "(fun k => if bytes_eqb k [x61] then 3%Z else if bytes_eqb k [x61; x62] then 1%Z else 0%Z)"
+	texts := []string{"", "a", "x", "ab", "abc", "a,bc", "a,,b", ",", "zbc,a,xbc", "h\u00e9llo!x", "\xff\xfea\xe2\x82", "\u20acuro_\U0001F600", "09af", "09aG", "test", "\u00e9\u00e8\xc3"}
+	for _, in := range texts {
+		cd := coqBytes([]byte(in))
+		add("s_Lookup "+cd+" "+mCoq+" "+nCoq, res(func() string { return coqZ(synth.Lookup(in, mGo, nGo)) }))
+		add("s_Lookup "+cd+" (fun _ => false) (fun _ => 0%Z)", res(func() string { return coqZ(synth.Lookup(in, nil, nil)) }))
+		add("s_Balanced 30 "+cd+" "+mCoq, res(func() string { return coqB(synth.Balanced(in, mGo)) }))
+		add("s_Runes "+cd, res(func() string {
+			a, b, c := synth.Runes(in)
+			return "(" + coqZ(a) + ", " + coqZ(b) + ", " + coqZ(c) + ")"
+		}))
+		add("s_Plain "+cd, res(func() string { return coqB(synth.Plain(in)) }))
+		add("s_AllHex "+cd, res(func() string { return coqB(synth.AllHex(in)) }))
+	}
+	lists := [][]string{nil, {"a"}, {"test"}, {"a", "b", "a"}, {"a", "a", "a", "test"}, {"", "x", "", "", "test", "test"}}
+	for _, l := range lists {
+		var parts []string
+		for _, w := range l {
+			parts = append(parts, coqBytes([]byte(w)))
+		}
+		cl := "[" + strings.Join(parts, "; ") + "]"
+		for _, i := range []int{-1, 0, 2, 3} {
+			add("s_Words "+cl+" "+coqZ(i), res(func() string {
+				w, k := synth.Words(append([]string(nil), l...), i)
+				return "(" + coqBytes([]byte(w)) + ", " + coqZ(k) + ")"
+			}))
+		}
+	}
+	for _, n := range []int{-2, 0, 1, 5} {
+		add("s_Tri 10 "+coqZ(n), res(func() string { return coqZ(synth.Tri(n)) }))
+		add("s_SumTri 10 "+coqZ(n), res(func() string { return coqZ(synth.SumTri(n)) }))
+		add("s_CountDown "+coqZ(n), res(func() string { return coqZ(synth.CountDown(n)) }))
+	}
+	// the bound on the depth of a recursion is real
+	add("s_Tri 5 "+coqZ(5), "OutOfFuel")
+	add("s_Tri 6 "+coqZ(5), "Ok "+coqZ(15))
+	add("s_Balanced 2 "+coqBytes([]byte("a,b,c"))+" "+mCoq, "OutOfFuel")
 	// the iteration bound is real
 	add("s_Sum 3 "+coqBytes([]byte("aaaa")), "OutOfFuel")
 	add("s_CountAB 2 "+coqBytes([]byte("aaaa")), "OutOfFuel")
 
 	theories, _ := filepath.Abs("../../coq/theories")
-	if _, err := os.Stat(filepath.Join(theories, "Lib", "GoSem.vo")); err != nil {
-		t.Skip("compiled Lib/GoSem.vo not found under " + theories)
+	if th := os.Getenv("GO2COQ_THEORIES"); th != "" {
+		theories = th
+	}
+	if _, err := os.Stat(filepath.Join(theories, "Lib", "GoSemExt.vo")); err != nil {
+		t.Skip("compiled Lib/GoSemExt.vo not found under " + theories)
 	}
 	if _, err := exec.LookPath("coqc"); err != nil {
 		t.Skip("coqc not found")
@@ -98,7 +143,7 @@ func TestAgainstGo(t *testing.T) {
 	dir := t.TempDir()
 	var b strings.Builder
 	b.WriteString("From Coq Require Import List ZArith NArith Bool.\nFrom Coq.Strings Require Import Byte.\nImport ListNotations.\n")
-	b.WriteString("From GI Require Import Lib.Bytes Lib.GoSem.\nImport GoNotations.\nLocal Open Scope go_scope.\n\n")
+	b.WriteString("From GI Require Import Lib.Bytes Lib.GoSem Lib.GoSemExt.\nImport GoNotations.\nLocal Open Scope go_scope.\n\n")
 	b.WriteString(r.Text)
 	for i, e := range ex {
 		fmt.Fprintf(&b, "Example ex%d : %s.\nProof. vm_compute. reflexivity. Qed.\n", i, e)
@@ -121,32 +166,53 @@ func TestAgainstGo(t *testing.T) {
 
 // Constructs outside the subset are refused, with a message naming them.
 func TestRejects(t *testing.T) {
-	cases := []struct{ name, body, want string }{
-		{"goto", "func F(d []byte) int { L: for { break L }; return 0 }", "statement"},
-		{"switch", "func F(d []byte) int { switch len(d) { case 0: return 1 }; return 0 }", "statement of kind *ast.SwitchStmt"},
-		{"nilcmp", "func F(d []byte) bool { return d == nil }", "with nil"},
-		{"alias-store", "func F(d []byte) []byte { d[0] = 1; return d }", "not made by make"},
-		{"alias-make", "func F(n int) []byte { d := make([]byte, n); e := d; e[0] = 1; return d }", "alias"},
-		{"append-other", "func F(d []byte) []byte { e := append(d, 1); return e }", "x = append(x"},
-		{"append-param", "func F(d []byte) []byte { d = append(d, 1); return d }", "parameter"},
-		{"append-shared", "func F(d []byte) []byte { var e []byte; e = d[:1]; e = append(e, 1); return e }", "share"},
-		{"pointer", "func F(p *P) int { return p.N }", "pointer parameter"},
-		{"address", "func F(d []byte) int { x := 1; y := &x; return *y }", ""},
-		{"closure", "func F(d []byte) int { f := func() int { return 1 }; return f() }", ""},
-		{"division", "func F(a, b int) int { return a / b }", "operator /"},
-		{"recursion", "func F(a int) int { if a > 0 { return F(a - 1) }; return 0 }", "recursive"},
-		{"rangestring", "func F(s string) int { n := 0; for range s { n++ }; return n }", "range over"},
-		{"uint", "func F(a uint32) uint32 { return a + 1 }", "not supported"},
-		{"libcall", "func F(d []byte) []byte { return bytes.ToUpper(d) }", "bytes.ToUpper"},
-		{"defer", "func F(d []byte) int { defer func() {}(); return 0 }", ""},
-		{"global-assign", "var g = []byte(\"x\")\nfunc F(d []byte) int { g = d; return 0 }", "package-level"},
-		{"deadcode", "func F(d []byte) int { return 0; return 1 }", "unreachable"},
+	cases := []struct {
+		name, body, want string
+		funcs            []string
+	}{
+		{"goto", "func F(d []byte) int { L: for { break L }; return 0 }", "statement", nil},
+		{"switch", "func F(d []byte) int { switch len(d) { case 0: return 1 }; return 0 }", "statement of kind *ast.SwitchStmt", nil},
+		{"nilcmp", "func F(d []byte) bool { return d == nil }", "with nil", nil},
+		{"alias-store", "func F(d []byte) []byte { d[0] = 1; return d }", "not made by make", nil},
+		{"alias-make", "func F(n int) []byte { d := make([]byte, n); e := d; e[0] = 1; return d }", "alias", nil},
+		{"append-other", "func F(d []byte) []byte { e := append(d, 1); return e }", "x = append(x", nil},
+		{"append-param", "func F(d []byte) []byte { d = append(d, 1); return d }", "parameter", nil},
+		{"append-shared", "func F(d []byte) []byte { var e []byte; e = d[:1]; e = append(e, 1); return e }", "share", nil},
+		{"pointer", "func F(p *P) int { return p.N }", "pointer parameter", nil},
+		{"address", "func F(d []byte) int { x := 1; y := &x; return *y }", "", nil},
+		{"closure", "func F(d []byte) int { f := func() int { return 1 }; return f() }", "", nil},
+		{"division", "func F(a, b int) int { return a / b }", "operator /", nil},
+		{"mutual", "func F(a int) int { if a > 0 { return G(a - 1) }; return 0 }\nfunc G(a int) int { return F(a) }", "mutually recursive", []string{"F", "G"}},
+		{"recursion-in-loop", "func F(a int) int { for i := 0; i < a; i++ { a = F(i) }; return 0 }", "inside a loop", nil},
+		{"rangemap", "func F(m map[string]bool) int { n := 0; for range m { n++ }; return n }", "range over", nil},
+		{"mapstore", "func F(m map[string]bool) int { m[\"a\"] = true; return 0 }", "not made by make", nil},
+		{"mapcommaok", "func F(m map[string]bool) bool { v, ok := m[\"a\"]; return v && ok }", "other than a call", nil},
+		{"mapcommaok-if", "func F(m map[string]bool) bool { if _, ok := m[\"a\"]; ok { return true }; return false }", "other than a call", nil},
+		{"maplen", "func F(m map[string]bool) int { return len(m) }", "len of", nil},
+		{"mapdelete", "func F(m map[string]bool) int { delete(m, \"a\"); return 0 }", "expression statement", nil},
+		{"mapnil", "func F(m map[string]bool) bool { return m == nil }", "with nil", nil},
+		{"mapmake", "func F() bool { m := make(map[string]bool); return m[\"a\"] }", "make", nil},
+		{"mapintkey", "func F(m map[int]bool) bool { return m[1] }", "not supported", nil},
+		{"runearith", "func F(s string) rune { var r rune; for _, c := range s { r = c + 1 }; return r }", "operator +", nil},
+		{"strslice-store", "func F(l []string) int { l[0] = \"x\"; return 0 }", "not made by make", nil},
+		{"method", "func F(d []byte) bool { return re.Match(d) }", "(*regexp.Regexp).Match", nil},
+		{"rangeint2", "func F(n int) int { t := 0; for i, j := range n { t += i + j }; return t }", "", nil},
+		{"uint", "func F(a uint32) uint32 { return a + 1 }", "not supported", nil},
+		{"libcall", "func F(d []byte) []byte { return bytes.ToUpper(d) }", "bytes.ToUpper", nil},
+		{"defer", "func F(d []byte) int { defer func() {}(); return 0 }", "", nil},
+		{"global-assign", "var g = []byte(\"x\")\nfunc F(d []byte) int { g = d; return 0 }", "package-level", nil},
+		{"deadcode", "func F(d []byte) int { return 0; return 1 }", "unreachable", nil},
 	}
 	for _, c := range cases {
 		saved := cfg.Funcs
 		cfg.Funcs = []string{"F"}
-		_, err := translate(t, "package synth\nimport \"bytes\"\nvar _ = bytes.IndexByte\ntype P struct { Name string; N int }\n"+c.body+"\n")
+		if c.funcs != nil {
+			cfg.Funcs = c.funcs
+		}
+		cfg.Stubs["regexp"] = "package regexp\ntype Regexp struct{}\nfunc MustCompile(s string) *Regexp\nfunc (re *Regexp) Match(b []byte) bool\n"
+		_, err := translate(t, "package synth\nimport (\"bytes\"; \"regexp\")\nvar _ = bytes.IndexByte\nvar re = regexp.MustCompile(\"a\")\ntype P struct { Name string; N int }\n"+c.body+"\n")
 		cfg.Funcs = saved
+		delete(cfg.Stubs, "regexp")
 		if err == nil {
 			t.Errorf("%s: accepted", c.name)
 			continue
@@ -167,5 +233,40 @@ func TestDeterministic(t *testing.T) {
 	b, _ := translate(t, "// a comment\n\n"+strings.ReplaceAll(string(src), "\treturn a, b\n", "\t// c\n\treturn a,\n\t\tb\n"))
 	if a.Text != b.Text {
 		t.Error("comments and layout change the generated text")
+	}
+	// a renamed local changes bound names only
+	c, err := translate(t, strings.ReplaceAll(string(src), "pos", "whereabouts"))
+	if err != nil {
+		t.Fatal(err)
+	}
+	if c.Text == a.Text || strings.ReplaceAll(c.Text, "v_whereabouts", "v_pos") != a.Text {
+		t.Error("renaming a local changes more than the bound names")
+	}
+}
+
+// A method of a library type and a package-level variable given by the table.
+func TestTableVarsAndMethods(t *testing.T) {
+	fset := token.NewFileSet()
+	src := "package p\nimport \"regexp\"\nvar re = regexp.MustCompile(\"a+\")\nvar Known = make(map[string]bool)\nfunc init() { Known[\"a\"] = true }\n" +
+		"func F(s string) bool { return Known[s] && re.MatchString(s) }\n"
+	f, err := parser.ParseFile(fset, "p.go", src, 0)
+	if err != nil {
+		t.Fatal(err)
+	}
+	c := &go2coq.Config{Prefix: "p_", Funcs: []string{"F"},
+		Stubs: map[string]string{"regexp": "package regexp\ntype Regexp struct{}\nfunc MustCompile(s string) *Regexp\nfunc (re *Regexp) MatchString(s string) bool\n"},
+		Lib:   map[string]go2coq.LibFunc{"(*regexp.Regexp).MatchString": {Coq: "re_match"}},
+		Vars:  map[string]string{"re": "the_re", "Known": "(known known_list)"}}
+	r, err := go2coq.Translate(fset, []*ast.File{f}, "p", c)
+	if err != nil {
+		t.Fatal(err)
+	}
+	if !strings.Contains(r.Text, "Ok (((known known_list) v_s) && (re_match the_re v_s))") {
+		t.Errorf("unexpected translation:\n%s", r.Text)
+	}
+	// without the table entries the variables are refused
+	c.Vars = nil
+	if _, err := go2coq.Translate(fset, []*ast.File{f}, "p", c); err == nil {
+		t.Error("accepted a map filled by init() without a table entry")
 	}
 }
